@@ -1,6 +1,7 @@
 """Drivers of the q120 code (products, conversions, block maps, NTT) shared by C03, C04, C10.
 Lanes are reduced with Python's % when an event carries residues; everything else is the library's work."""
 import ctypes
+import os
 
 import numpy as np
 
@@ -112,8 +113,15 @@ def product(qc, kind, impl, x_lanes, y_lanes, off=0, pre=None):
         else:
             Y.u64[:] = np.array(y_lanes, dtype=np.uint64).reshape(-1)
     x0, y0 = X.snapshot(), Y.snapshot()
+    tab = pre if pre is not None else qc.prod_pre(base)
+    L.libc.malloc_usable_size.restype = ctypes.c_size_t
+    L.libc.malloc_usable_size.argtypes = [ctypes.c_void_p]
+    tsz = int(L.libc.malloc_usable_size(tab)) if not os.environ.get("VERIF_ASAN") else 0
+    t0 = ctypes.string_at(tab, tsz) if tsz else b""
     with ro(X, Y):
-        L.fn(fname, "v puppp")(pre if pre is not None else qc.prod_pre(base), ell, R.addr, X.addr, Y.addr)
+        L.fn(fname, "v puppp")(tab, ell, R.addr, X.addr, Y.addr)
+    if tsz and ctypes.string_at(tab, tsz) != t0:
+        return None                      # the precomputed table is an input of the product: it must keep its bytes
     if not (X.canaries_ok() and Y.canaries_ok() and R.canaries_ok() and np.array_equal(X.u8, x0) and np.array_equal(Y.u8, y0)):
         return None
     return [[int(v) for v in R.u64[4 * i:4 * i + 4]] for i in range(nres)]
